@@ -11,26 +11,71 @@ let parse_ops (s : string) : sop list =
               | _ -> failwith "bad S")
     | 'A' -> Some (SAdv (z_of_string (String.sub o 1 (String.length o - 1))))
     | 'C' -> Some SClear
+    | 'W' -> (match split_on ':' (String.sub o 1 (String.length o - 1)) with
+              | [_k; d] -> Some (SPark (z_of_string d, O))      (* nf is filled in from the implementation's trace *)
+              | _ -> failwith "bad W")
     | _ -> failwith "bad op") (split_on ',' s)
 
 let parse_res (s : string) : string array =
   if s = "-" then [||] else Array.of_list (List.map (fun x -> if x = "-" then "" else x) (split_on ',' s))
 
-let show_hist (h : hentry list) : string =
-  String.concat " " (List.map (function
-    | HSched _ -> "s1"
-    | HFire (_, cb, t, r) -> "f" ^ string_of_z cb ^ "@" ^ string_of_z t ^ ":" ^ b01 r
-    | HClear (_, n) -> "c" ^ string_of_int (int_of_nat n)
-    | HQuiet _ -> "q") h)
+let tok_of (e : hentry) : string =
+  match e with
+  | HSched _ -> "s1"
+  | HFire (_, cb, t, r) -> "f" ^ string_of_z cb ^ "@" ^ string_of_z t ^ ":" ^ b01 r
+  | HClear (_, n) -> "c" ^ string_of_int (int_of_nat n)
+  | HQuiet _ -> "q"
 
-(* implementation tokens -> history; None when the trace is not of the expected shape *)
-let impl_hist (t0 : z) (sc : sop list) (impl : string) : (hentry list * z list) option =
+(* callback to be parked, per op (-1: not a W op) *)
+let park_cbs (s : string) : int list =
+  List.filter_map (fun o ->
+    if o = "" then None
+    else if o.[0] = 'W' then Some (int_of_string (List.hd (split_on ':' (String.sub o 1 (String.length o - 1)))))
+    else Some (-1)) (split_on ',' s)
+
+(* the model's history as tokens; every op of the script ends with one HQuiet.  For a W op the token
+   w0 ("clear() had not returned while the callback was kept from returning": in the model the pass of the
+   loop is one atomic step, so it cannot have) is put in front when callback k ran before the clear *)
+let show_hist (parks : int list) (h : hentry list) : string =
+  let rec segs acc cur = function
+    | [] -> List.rev (if cur = [] then acc else List.rev cur :: acc)
+    | (HQuiet _ as e) :: t -> segs (List.rev (e :: cur) :: acc) [] t
+    | e :: t -> segs acc (e :: cur) t in
+  let ss = segs [] [] h in
+  let rec go ss ps = match ss, ps with
+    | [], _ -> []
+    | sg :: st, p :: pt ->
+        let rec before_clear = function
+          | [] -> false
+          | HClear _ :: _ -> false
+          | HFire (_, cb, _, _) :: t -> int_of_z cb = p || before_clear t
+          | _ :: t -> before_clear t in
+        let toks = List.map tok_of sg in
+        (if p >= 0 && before_clear sg then "w0" :: toks else toks) :: go st pt
+    | sg :: st, [] -> List.map tok_of sg :: go st [] in
+  String.concat " " (List.concat (go ss parks))
+
+(* implementation tokens -> history, tie preferences, script with the nf of every W op filled in;
+   None when the trace is not of the expected shape *)
+let impl_hist (t0 : z) (sc : sop list) (impl : string) : (hentry list * z list * sop list) option =
   let toks = ref (words impl) in
   let next () = match !toks with [] -> None | x :: r -> toks := r; Some x in
   let peek () = match !toks with [] -> None | x :: _ -> Some x in
-  let h = ref [] and pref = ref [] and now = ref t0 and k = ref 0 and ok = ref true in
+  let h = ref [] and pref = ref [] and now = ref t0 and k = ref 0 and ok = ref true and sc' = ref [] in
+  let fire f =
+    (try
+      let at = String.index f '@' and col = String.index f ':' in
+      let cb = int_of_string (String.sub f 1 (at - 1)) in
+      let t = z_of_string (String.sub f (at + 1) (col - at - 1)) in
+      let r = String.sub f (col + 1) (String.length f - col - 1) = "1" in
+      h := HFire (nat_of_int cb, z_of_int cb, t, r) :: !h;
+      pref := z_of_int cb :: !pref
+    with _ -> ok := false) in
+  let clear c = h := HClear (!now, nat_of_int (int_of_string (String.sub c 1 (String.length c - 1)))) :: !h in
+  let is_f f = String.length f > 1 && f.[0] = 'f' and is_c c = String.length c > 1 && c.[0] = 'c' in
   List.iter (fun o ->
     if !ok then begin
+      let o' = ref o in
       (match o with
        | SSched (rep, ms) ->
            (match next () with
@@ -39,42 +84,47 @@ let impl_hist (t0 : z) (sc : sop list) (impl : string) : (hentry list * z list) 
        | SAdv d -> now := Z.add !now d
        | SClear ->
            (match next () with
-            | Some c when String.length c > 1 && c.[0] = 'c' ->
-                h := HClear (!now, nat_of_int (int_of_string (String.sub c 1 (String.length c - 1)))) :: !h
-            | _ -> ok := false));
+            | Some c when is_c c -> clear c
+            | _ -> ok := false)
+       | SPark (d, _) ->
+           now := Z.add !now d;
+           (match peek () with Some ("w0" | "w1") -> ignore (next ()) | _ -> ());
+           let nf = ref 0 and seen = ref false in
+           while !ok && not !seen do
+             match next () with
+             | Some f when is_f f -> fire f; incr nf
+             | Some c when is_c c -> clear c; seen := true
+             | _ -> ok := false
+           done;
+           o' := SPark (d, nat_of_int !nf));
+      sc' := !o' :: !sc';
       let continue = ref !ok in
       while !continue do
         match peek () with
-        | Some f when String.length f > 1 && f.[0] = 'f' ->
-            ignore (next ());
-            (try
-              let at = String.index f '@' and col = String.index f ':' in
-              let cb = int_of_string (String.sub f 1 (at - 1)) in
-              let t = z_of_string (String.sub f (at + 1) (col - at - 1)) in
-              let r = String.sub f (col + 1) (String.length f - col - 1) = "1" in
-              h := HFire (nat_of_int cb, z_of_int cb, t, r) :: !h;
-              pref := z_of_int cb :: !pref
-            with _ -> ok := false; continue := false)
+        | Some f when is_f f -> ignore (next ()); fire f; if not !ok then continue := false
         | _ -> continue := false
       done;
       if !ok then (match next () with
         | Some "q" -> h := HQuiet !now :: !h
         | _ -> ok := false)
     end) sc;
-  if !ok && !toks = [] then Some (List.rev !h, List.rev !pref) else None
+  if !ok && !toks = [] then Some (List.rev !h, List.rev !pref, List.rev !sc') else None
 
 let () = run_protocol (fun case impl ->
   match words case with
   | [t0; rs; ops] ->
-    let t0 = z_of_string t0 and resv = parse_res rs and sc = parse_ops ops in
+    let t0 = z_of_string t0 and resv = parse_res rs and sc = parse_ops ops and parks = park_cbs ops in
     let res (cb : z) (n : nat) : bool =
       let c = int_of_z cb and n = int_of_nat n in
       c >= 0 && c < Array.length resv && n < String.length resv.(c) && resv.(c).[n] = 'T' in
     let ih = (try impl_hist t0 sc impl with _ -> None) in
-    let pref = (match ih with Some (_, p) -> p | None -> []) in
+    let pref = (match ih with Some (_, p, _) -> p | None -> []) in
+    let sc = (match ih with Some (_, _, sc') -> sc' | None -> sc) in
     let (((s, _), _), fin) = run_script res t0 pref sc in
-    let ms = (let t = show_hist (hist s) in (if t = "" then "-" else t) ^ (if fin then "" else " FUEL")) in
+    let ms = (let t = show_hist parks (hist s) in (if t = "" then "-" else t) ^ (if fin then "" else " FUEL")) in
     let om = fin && c31_ok (hist s) in
-    let oi = (match ih with Some (h, _) -> c31_ok h | None -> false) in
+    (* a clear() that returned while the callback was parked (w1) is a failure by itself: the call overlapped the callback *)
+    let w1 = List.mem "w1" (words impl) in
+    let oi = (match ih with Some (h, _, _) -> c31_ok h && not w1 | None -> false) in
     (ms, oi, om)
   | _ -> ("BAD-CASE", false, false))
